@@ -467,7 +467,53 @@ func init() {
 		Streams: []Stream{
 			{Name: "sorted", N: func(c *Ctx) int { return tierN(c, 3000, 60000) }, Run: c13Run},
 			{Name: "joins", N: func(c *Ctx) int { return joinN() }, Run: joinModel("C13", true), Exhaustive: true},
+			{Name: "untouched", N: func(c *Ctx) int { return len(c07Directed()) }, Run: c13Untouched, Exhaustive: true},
 			{Name: "invalid", N: func(c *Ctx) int { return tierN(c, 3000, 40000) }, Run: c13Invalid},
 		},
 	})
+}
+
+// c13Untouched: "the input array is left untouched" for every way an array can reach sort, sort_by,
+// min/max(_by), reverse and group_by without a copy - the directed list shared with C06/C07 (fields,
+// [*] / [:] / [] / filters that return their input, to_array, not_null, pipes, lets, literals, a
+// slice of a string handing on an array of the document, ...).  Each expression runs twice on one
+// document; the document must equal its snapshot after each call and both calls must agree with a
+// call on a pristine copy.
+func c13Untouched(c *Ctx, idx int) {
+	text := c07Directed()[idx]
+	if !strings.Contains(text, "sort") && !strings.Contains(text, "max") && !strings.Contains(text, "min") && !strings.Contains(text, "reverse") && !strings.Contains(text, "group_by") {
+		return
+	}
+	d, _ := ref.FromJSON(c07DirectedDoc)
+	r := c.Rand("")
+	goDoc := toGoCanary(r, d)
+	snap := deepSnap(goDoc)
+	fresh := c.LibSearch(text, ref.ToGo(d, ref.JSONNumber))
+	for call := 1; call <= 2; call++ {
+		l := c.LibSearch(text, goDoc)
+		if l.Panic != nil {
+			return
+		}
+		if now := deepSnap(goDoc); now != snap {
+			c.Report(Violation{Rule: "C13/input-modified", Expr: text, Data: clipS(c07DirectedDoc, 300), Got: "the document differs from its snapshot after call " + fmt.Sprint(call) + ": " + firstDiff(snap, now), Want: "the input left untouched"})
+			snap = now
+		}
+		if !SameOutcome(l, fresh, Enumerates(text)) {
+			c.Report(Violation{Rule: "C13/depends-on-earlier-call", Expr: text, Data: clipS(c07DirectedDoc, 300), Got: clipS(ShowOut(l), 300) + fmt.Sprintf(" (call %d on one document)", call), Want: clipS(ShowOut(fresh), 300) + " (pristine copy)"})
+		}
+	}
+	c.Nontrivial(text)
+}
+
+// firstDiff shows where two snapshots part.
+func firstDiff(a, b string) string {
+	i := 0
+	for i < len(a) && i < len(b) && a[i] == b[i] {
+		i++
+	}
+	lo := i - 30
+	if lo < 0 {
+		lo = 0
+	}
+	return fmt.Sprintf("at offset %d: ...%s | was ...%s", i, clipS(b[lo:], 80), clipS(a[lo:], 80))
 }
